@@ -239,6 +239,25 @@ func runHarness(L *Loaded, H *Harness, sem chan struct{}, maxWorkers int, debug 
 			pool.mu.Unlock()
 		}
 	}
+	if os.Getenv("VERIF_PROGRESS") != "" {
+		stop := make(chan struct{})
+		defer close(stop)
+		go func() {
+			for {
+				select {
+				case <-stop:
+					return
+				case <-time.After(5 * time.Second):
+					rmu.Lock()
+					tp := totalPaths
+					rmu.Unlock()
+					pool.mu.Lock()
+					fmt.Fprintf(os.Stderr, "progress %s: paths=%d workers=%d queued=%d active=%d t=%.0fs\n", H.Name, tp, pool.workers, len(pool.tasks), pool.active, time.Since(t0).Seconds())
+					pool.mu.Unlock()
+				}
+			}
+		}()
+	}
 	// first worker always (blocks for a token)
 	pool.tasks = append(pool.tasks, nil)
 	sem <- struct{}{}
